@@ -148,3 +148,19 @@ theorem assignY_scale (c ls y : Rat) (hs : List Rat) :
 #print axioms assignY_bands
 #eval valign 10 200 [20, 0, 40]
 #eval assignY 15 0 [10, 30, 5]
+
+/-- scaling commutes with `max` for a positive factor (comparisons in SinkColoring/B&K are scale-invariant) -/
+theorem max_scale (a b c : Rat) (hc : 0 < c) : max (c*a) (c*b) = c * max a b := by
+  rcases Rat.le_total (a := a) (b := b) with h | h
+  · have h2 : c*a ≤ c*b := Rat.mul_le_mul_of_nonneg_left h (Rat.le_of_lt hc)
+    simp [Rat.max_def, h, h2]
+  · have h2 : c*b ≤ c*a := Rat.mul_le_mul_of_nonneg_left h (Rat.le_of_lt hc)
+    grind
+
+theorem lt_scale (a b c : Rat) (hc : 0 < c) : c * a < c * b ↔ a < b := by
+  constructor
+  · intro h
+    rcases Rat.le_total (a := b) (b := a) with h1 | h1
+    · have := Rat.mul_le_mul_of_nonneg_left h1 (Rat.le_of_lt hc); grind
+    · grind
+  · intro h; exact Rat.mul_lt_mul_of_pos_left h hc
